@@ -452,8 +452,9 @@ class DistinctView(Table):
                         yield tuple(previous) + (n_dup,)
                         n_dup = 1
                         previous = row
-            # deal with last row
-            yield tuple(previous) + (n_dup,)
+            # deal with last row (if any)
+            if previous is not INIT:
+                yield tuple(previous) + (n_dup,)
         else:
             yield tuple(hdr)
             previous_keys = INIT
